@@ -9,7 +9,7 @@ from shapes import shapes, prod, fmt
 
 ID = 'C16'
 LEVEL = 'proof'
-RULE = ('exhaustive over operand shapes of rank 1..R with extents 1..E (quick R=3,E=3; thorough R=4,E=4, results capped in size and '
+RULE = ('exhaustive over operand shapes of rank 1..R with extents 1..E (quick R=3,E=3 plus all rank-4 shapes with extents 1..2; thorough R=4,E=4, results capped in size and '
         'sub-sampled by a fixed stride where the pair space explodes): every NumPy-accepted pair for matmul (both implementations), dot, inner, '
         'outer, vecdot, kron; tensordot with every integer axes 0..min(dim) and every explicit ordered axis pairing (plus negative spellings); '
         'trace over every axis pair (positive and negative spelling) and every offset with a non-empty diagonal; index::shape_matmul on ALL pairs '
@@ -130,6 +130,10 @@ def gen(tier, rng):
     quick = tier == 'quick'
     R, E = (3, 3) if quick else (4, 4)
     S = list(shapes(R, E, min_rank=1))
+    if quick:
+        # the property names rank 4: add every rank-4 shape with extents 1..2 so that operands whose batch ranks differ
+        # by one or two (rank 3 x rank 4, rank 2 x rank 4) and 4-axis pipelines are in the quick tier too
+        S += [s for s in shapes(4, 2, min_rank=4)]
     cap = 800 if quick else 5000            # max result elements per request
     modes = ['mix', 'lin']
     cnt = [0]
